@@ -10,7 +10,7 @@ From ClapModel Require Import ParseProofs.Actions ParseProofs.Unparse ParseProof
 From ClapModel Require Import Base.Utf8 Lex.OsStrExtModel Lex.OsStrExtProofs ParseProofs.UnparseLift.
 From ClapModel Require Import ParseProofs.UnparseX ParseProofs.UnparseXProofs ParseProofs.UnparseXTree ParseProofs.UnparseXExamples.
 From ClapModel Require Import ParseProofs.Globals ParseProofs.UnparseGlobals ParseProofs.Spelling ParseProofs.UnparsePending ParseProofs.UnparseBridge.
-From ClapModel Require Import ParseProofs.Escape ParseProofs.UnparseXTrail ParseProofs.UnparseYTree ParseProofs.UnparseYExamples ParseProofs.UnparseUser.
+From ClapModel Require Import ParseProofs.Escape ParseProofs.UnparseXTrail ParseProofs.UnparseYTree ParseProofs.UnparseYExamples ParseProofs.UnparseUser ParseProofs.UnparsePendingLoop.
 From Coq Require Import ZArith Sorting.Sorted Sorting.Permutation List.
 Import ListNotations.
 Open Scope N_scope.
@@ -885,3 +885,51 @@ Theorem C02_bridge_nonvacuous :
   user_conventionalx YEx.c0 = false /\ convx YEx.c = true.
 Proof. exact user_examples. Qed.
 Print Assumptions C02_bridge_nonvacuous.
+
+(** (3) [C02_pending_bounded] AS ONE INVARIANT OF [parse_loop] (ParseProofs/UnparsePendingLoop.v), for ALL commands passing
+    [assert_app], ALL token lists, ALL exits of the loop (end of line, subcommand, external subcommand, help subcommand, error).
+    [bnd c st]: the occurrence being collected, if it belongs to an OPTION (an argument without positional index), holds at
+    most [num_args.max] values.  [PB c ls st] = [bnd] + while the loop is in state [Opt(i)], [i] takes values and its buffer is
+    strictly below the maximum.  [PB] holds initially, and from ANY loop state satisfying it every exit state satisfies [bnd]:
+    the proof is an induction over the tokens that re-establishes [PB] at every recursive call, following each branch of the
+    iteration ([parse_loop_step]: the iteration split into its classification and delivery phases, by computation).
+    For positionals the statement stays refuted ([C02_pending_positional_refuted]): their run is counted when flushed
+    ([C02_flushed_in_range]). *)
+Theorem C02_pending_invariant : forall c, assert_app c = true ->
+  PB c (mkL PSValuesDone 1 false false) ps_new /\
+  forall toks ls st, PB c ls st -> okres c (parse_loop c toks ls st).
+Proof. exact (fun c HA => conj (PB_new c) (pending_bounded_loop c HA)). Qed.
+Print Assumptions C02_pending_invariant.
+
+Theorem C02_pending_bounded : forall c toks, assert_app c = true ->
+  match parse_loop c toks (mkL PSValuesDone 1 false false) ps_new with
+  | ROk lr => bnd c (lr_st lr)
+  | RErr _ s => bnd c s
+  | RPanic _ => True
+  end.
+Proof. exact pending_bounded. Qed.
+Print Assumptions C02_pending_bounded.
+
+(** what [bnd] says, spelled out (definitional) *)
+Theorem C02_pending_bounded_meaning : forall c st,
+  bnd c st <-> (forall p a r, mt_pending (mt st) = Some p -> find_arg c (p_id p) = Some a -> a_index a = None ->
+                  a_num a = Some r -> N.of_nat (length (p_raw p)) <= vmax r).
+Proof. exact (fun c st => conj (fun H => H) (fun H => H)). Qed.
+Print Assumptions C02_pending_bounded_meaning.
+
+(** one iteration of the loop = classification phase, then delivery phase (the decomposition the invariant proof follows) *)
+Theorem C02_parse_loop_step : forall c tok rest ls st,
+  parse_loop c (tok :: rest) ls st =
+  (do p1 <- phase1 c (parse_loop c rest) tok rest ls st;
+   let '(early, ls, st) := p1 in
+   match early with Some r => r | None => phase2 c (parse_loop c rest) tok rest ls st end).
+Proof. exact parse_loop_step. Qed.
+Print Assumptions C02_parse_loop_step.
+
+(** Non-vacuity: [prog --mu <v>{1..2}] on [--mu A B]: the hypothesis holds and the bound is attained *)
+Theorem C02_pending_bounded_nonvacuous : assert_app PendLoopEx.c = true /\
+  exists st p a, parse_loop PendLoopEx.c PendLoopEx.toks (mkL PSValuesDone 1 false false) ps_new = ROk (LDone st) /\
+    mt_pending (mt st) = Some p /\ find_arg PendLoopEx.c (p_id p) = Some a /\ a_index a = None /\
+    a_num a = Some {| vmin := 1; vmax := 2 |} /\ p_raw p = [[65]; [66]].
+Proof. exact PendLoopEx.ex. Qed.
+Print Assumptions C02_pending_bounded_nonvacuous.
